@@ -1156,3 +1156,33 @@ Proof.
   - eapply approx_eq; [apply Hb | reflexivity | exact N3].
   - eapply approx_eq; [apply Hp | reflexivity | exact N4].
 Qed.
+
+Lemma fle_ok_sound tol hete : forall net fle t0, fle_ok tol t0 hete net fle = true ->
+  length fle = length net /\
+  forall t, (t < length net)%nat -> ~ arr_at hete (t0 + t) == 0 ->
+    approx tol (nth t fle 0 * arr_at hete (t0 + t)) (nth t net 0).
+Proof.
+  induction net as [|x net IH]; intros [|f fle] t0 H; cbn [fle_ok] in H; try discriminate.
+  - split. reflexivity. intros t Ht. cbn in Ht. lia.
+  - apply andb_true_iff in H. destruct H as [Hc Hr]. destruct (IH _ _ Hr) as [Hl Hn].
+    split. cbn. lia. intros [|t] Ht Hz; cbn [nth].
+    + rewrite Nat.add_0_r in *. apply orb_true_iff in Hc. destruct Hc as [Hc|Hc].
+      * apply Qeq_bool_iff in Hc. contradiction.
+      * apply close_iff. exact Hc.
+    + replace (t0 + S t)%nat with (S t0 + t)%nat in * by lia. apply Hn. cbn in Ht. lia. exact Hz.
+Qed.
+
+(* reported first-law efficiency x modelled heat towards electricity = reported net electricity *)
+Theorem check_fle_sound tol p eu amb avail n m cp tprod tinj tchp eff chpf net fle :
+  check_fle tol p eu amb avail n m cp tprod tinj tchp eff chpf net fle = true ->
+  exists tinj' etau reinj o,
+    power_plant p eu amb avail n m cp tprod tinj tchp eff chpf = Ok (tinj', etau, reinj, o) /\
+    length fle = length net /\
+    forall t, (t < length net)%nat -> ~ arr_at (o_hete o) t == 0 ->
+      approx tol (nth t fle 0 * arr_at (o_hete o) t) (nth t net 0).
+Proof.
+  unfold check_fle. intros H.
+  destruct (power_plant p eu amb avail n m cp tprod tinj tchp eff chpf) as [[[[t1 e1] r1] o1]|c]; [|discriminate].
+  apply fle_ok_sound in H. destruct H as [Hl Hn]. exists t1, e1, r1, o1. split. reflexivity. split. exact Hl.
+  intros t Ht Hz. apply (Hn t Ht). exact Hz.
+Qed.
